@@ -42,7 +42,7 @@ CLAUSES = ["aperture-in-unit-interval", "hard-binary", "hard-one-up-to-cutoff", 
            "temporal-one-at-zero", "spatial-in-unit-interval", "spatial-one-at-zero", "ctf-le-aperture", "ctf-zero-where-closed",
            "pipeline-le-aperture", "infinite-cutoff-is-open", "history-state", "history-equals-fresh"]
 QUICK = dict(n=170, time=40)
-THOROUGH = dict(n=12000, time=360, shards=16)
+THOROUGH = dict(n=96000, time=480, shards=16)
 ASSUMPTIONS = ["Wiener-filtered CTFs (wiener_snr != 0) are outside the quantifier of the property and are not generated",
                "user-defined weights are drawn from (0, 1] (the weights of coefficient distributions legitimately scale a CTF)"]
 
